@@ -145,8 +145,19 @@ func envOr(k, d string) string {
 	return d
 }
 
+// evidenceOnAbort, when set, rewrites the property's evidence file to say that
+// this run did not complete (so that the previous run's evidence cannot be
+// taken for this one's).
+var evidenceOnAbort func(reason string)
+
 func fatal2(format string, args ...any) {
-	fmt.Fprintf(os.Stderr, "vcheck: "+format+"\n", args...)
+	msg := fmt.Sprintf(format, args...)
+	fmt.Fprintf(os.Stderr, "vcheck: %s\n", msg)
+	if evidenceOnAbort != nil {
+		f := evidenceOnAbort
+		evidenceOnAbort = nil
+		f(firstLine(msg))
+	}
 	cleanup()
 	os.Exit(2)
 }
@@ -256,6 +267,17 @@ func main() {
 		os.Exit(rc)
 	}
 
+	// From here on a run that cannot be completed says so in the evidence file.
+	evidenceOnAbort = func(reason string) {
+		ev := map[string]any{"property_id": propID, "tier": *tier, "seed": seed, "level": pc.Level, "wall_s": time.Since(startWall).Seconds(),
+			"coverage": map[string]any{"evaluations": 0, "distinct_nontrivial": 0, "rule": pc.Rule, "samples": []any{"this run did not complete: " + reason},
+				"components_real": pc.Real, "components_stub": pc.Stub},
+			"result": "not completed (exit status 2, no verdict): " + reason}
+		if js, err := json.MarshalIndent(ev, "", " "); err == nil {
+			os.MkdirAll(filepath.Join(verifDir, "evidence"), 0777)
+			os.WriteFile(filepath.Join(verifDir, "evidence", propID+".json"), js, 0666)
+		}
+	}
 	// Known findings for this property.
 	kfs := loadKnown(propID)
 	var windows []string
@@ -286,16 +308,27 @@ func main() {
 	sort.Strings(windows)
 
 	// Stored replays of fixed findings and of seeded regressions must stay clean.
+	// They are replayed with the known-finding windows of this property closed, as
+	// the exploration is, and only the finding's own invariant counts as "back": a
+	// stored tape that shows something else no longer means the run it was recorded
+	// from (the generators moved on) and says nothing about the tree.
+	var report []string // VIOLATION lines, printed at the end and only with exit status 1
 	for _, kf := range kfs {
 		if kf.Status == "fixed" && kf.Replay != "" {
-			res, err := harnessOf(filepath.Join(verifDir, kf.Replay)).replay(filepath.Join(verifDir, kf.Replay), nil)
+			var extra map[string]string
+			if len(windows) > 0 && !*noQuar {
+				extra = map[string]string{"windows": strings.Join(windows, "+")}
+			}
+			res, err := harnessOf(filepath.Join(verifDir, kf.Replay)).replay(filepath.Join(verifDir, kf.Replay), extra)
 			if err != nil {
 				fatal2("replaying fixed finding %s: %v", kf.ID, err)
 			}
-			if res.Violation != nil {
-				fmt.Printf("VIOLATION property=%s replay=%s\n", propID, filepath.Join(verifDir, kf.Replay))
-				fmt.Printf("  fixed finding %s is back: %s: %s\n", kf.ID, res.Violation.Invariant, firstLine(res.Violation.Message))
+			switch {
+			case res.Violation != nil && res.Violation.Invariant == kf.Invariant:
+				report = append(report, fmt.Sprintf("VIOLATION property=%s replay=%s\n  fixed finding %s is back: %s: %s", propID, filepath.Join(verifDir, kf.Replay), kf.ID, res.Violation.Invariant, firstLine(res.Violation.Message)))
 				exit = 1
+			case res.Violation != nil:
+				fmt.Fprintf(os.Stderr, "vcheck: note: the stored replay of fixed finding %s is stale (it now shows %s, not %s); run tools/regen_all.sh\n", kf.ID, res.Violation.Invariant, kf.Invariant)
 			}
 		}
 	}
@@ -342,8 +375,11 @@ func main() {
 			tape = h.minimise(firstViol, violFlags)
 		}
 		replayPath = h.writeReplay(firstViol, tape, violFlags)
-		fmt.Printf("VIOLATION property=%s replay=%s\n", propID, replayPath)
-		fmt.Printf("  invariant: %s\n  %s\n", firstViol.Violation.Invariant, strings.ReplaceAll(firstViol.Violation.Message, "\n", "\n  "))
+		report = append(report, fmt.Sprintf("VIOLATION property=%s replay=%s\n  invariant: %s\n  %s", propID, replayPath, firstViol.Violation.Invariant, strings.ReplaceAll(firstViol.Violation.Message, "\n", "\n  ")))
+	}
+	evidenceOnAbort = nil
+	for _, l := range report {
+		fmt.Println(l)
 	}
 
 	writeEvidence(propID, pc, seed, agg, time.Since(startWall), exit, windows)
@@ -786,10 +822,14 @@ func (h *harnessBin) minimise(v *runResult, flags map[string]string) []uint32 {
 	if bp == nil {
 		return cur
 	}
-	defer func() { bp.stop() }()
+	defer func() {
+		if bp != nil {
+			bp.stop()
+		}
+	}()
 	tries := 0
 	test := func(t []uint32) bool {
-		if time.Now().After(deadline) {
+		if bp == nil || time.Now().After(deadline) {
 			return false
 		}
 		if bp.n > 150 { // recycle the process: parked goroutines accumulate
@@ -968,6 +1008,13 @@ func loadKnown(prop string) []knownFinding {
 
 // ---------------------------------------------------------------- evidence
 
+func workersUsed() int {
+	if *workersF > 0 {
+		return *workersF
+	}
+	return runtime.NumCPU()
+}
+
 func writeEvidence(prop string, pc *propConfig, seed uint64, a *aggregate, wall time.Duration, exit int, windows []string) {
 	dn := len(a.nontrivial)
 	var samples []any
@@ -1016,7 +1063,7 @@ func writeEvidence(prop string, pc *propConfig, seed uint64, a *aggregate, wall 
 		"components_real":     pc.Real,
 		"components_stub":     pc.Stub,
 		"quarantined_windows": windows,
-		"workers":             runtime.NumCPU(),
+		"workers":             workersUsed(),
 	}
 	if n := a.notes["executions"]; n > 0 {
 		cov["evaluations"] = n
